@@ -53,9 +53,10 @@ void sim_install_altstack() {
 static void watchdog_start() {
     struct sigaction sa; memset(&sa, 0, sizeof sa);
     sa.sa_handler = on_alarm; sa.sa_flags = SA_RESTART;
-    sigaction(SIGALRM, &sa, 0);
+    // CPU time, not wall time: a worker that is merely descheduled on a loaded machine has not hung
+    sigaction(SIGPROF, &sa, 0);
     struct itimerval it; it.it_interval.tv_sec = 1; it.it_interval.tv_usec = 0; it.it_value = it.it_interval;
-    setitimer(ITIMER_REAL, &it, 0);
+    setitimer(ITIMER_PROF, &it, 0);
 }
 
 // ---------------------------------------------------------------- type / value choice
@@ -101,6 +102,7 @@ ValueChoice choose_value(uint64_t run_seed, size_t max_budget) {
     if(fillable(c.td)) {
         size_t budget = 8 + (size_t)rv.below(max_budget - 7);
         if(rv.chance(1, 4)) budget = 8 + (size_t)rv.below(40);
+        else if(max_budget >= 160 && !is_recursive(c.td) && rv.chance(1, 24)) budget = 16000 + (size_t)rv.below(54000);   // long strings / lists: 16K fragmentation, multi-octet lengths
         uint64_t vs = rv.next();
         c.origin = "fill:" + std::to_string(vs) + ":" + std::to_string(budget);
     } else {
